@@ -73,6 +73,9 @@ Theorem C16_static_classes : StaticClass_stmt.                           Proof. 
 Print Assumptions C16_static_classes.
 Theorem C16_static_ctor_refuted : StaticCtor_refuted_stmt.               Proof. exact static_ctor_refuted. Qed.
 Print Assumptions C16_static_ctor_refuted.
+(* a member that shares storage with a constructor argument: the caller overwrites its array, the object changes *)
+Theorem C16_arg_shared_refuted : ArgShared_refuted_stmt.                 Proof. exact arg_shared_refuted. Qed.
+Print Assumptions C16_arg_shared_refuted.
 
 Theorem C16_refcount_safe : forall copy_incs destroy_decs destroy_frees order,
   RefcountSafe_stmt copy_incs destroy_decs destroy_frees order.
@@ -114,6 +117,8 @@ Theorem C16_decided_refcount : Decide_rc_stmt.                         Proof. ex
 Print Assumptions C16_decided_refcount.
 Theorem C16_decided_constructors : Decide_ctor_stmt.                   Proof. exact decide_ctor. Qed.
 Print Assumptions C16_decided_constructors.
+Theorem C16_decided_arguments : Decide_args_stmt.                      Proof. exact decide_args. Qed.
+Print Assumptions C16_decided_arguments.
 Theorem C16_decided_init : Decide_init_stmt.                           Proof. exact decide_init. Qed.
 Print Assumptions C16_decided_init.
 Theorem C16_decided_premises : Decide_premises_stmt.                   Proof. exact decide_premises. Qed.
